@@ -714,8 +714,9 @@ EXCS = ["ValueError", "ZeroDivisionError", "KeyError", "(KeyError, ValueError)",
         "TypeError"]
 APPLY = ["wrap", "rev", "ident", "blen", "up"]
 APPLY_SAFE = ["wrap", "ident"]
-IMPORTS = [("import math", "math", "math.floor(f)"), ("from os.path import basename", "basename", "basename('a/b.c')"),
-           ("import os.path", "os", "os.path.join('a', 'b')"), ("from json import dumps as jd", "jd", "jd([1, 's'])")]
+# an import binds a function-local name just like {% set %}: every import gets a fresh alias (%s)
+IMPORTS = [("import math as %s", "%s.floor(f)"), ("from os.path import basename as %s", "%s('a/b.c')"),
+           ("import os.path as %s", "%s.join('a', 'b')"), ("from json import dumps as %s", "%s([1, 's'])")]
 WORDS = ["hello", "Hello World", "<b>", "</b>", "<p class=\"x\">", "it's", "\\", "\\n", "\\'", "'''", '"""', "}", "}}", "%}", "#}",
          "%", "#", "!", "{", "{ ", "{!", "{ {", "{}", "$", "é", "中文", "\U0001f600", "<pre>", "</pre>", "<pre >", "a", "b", "0",
          "&amp;", "&", "=", "_tt_tmp", "end", "{ % x % }", "\\x00", "\x00", "\x7f", "`", "<!-- c -->", "<script>var a={};</script>"]
@@ -832,11 +833,10 @@ class Gen:
             return [("set", v, src)]
         if r < 59:
             F.add("import")
-            stmt, nm, use = rng.choice(IMPORTS)
-            if nm in scope:
-                return [("text", "i")]
+            stmt, use = rng.choice(IMPORTS)
+            nm = self.name("m")
             scope.append(nm)
-            return [("import", stmt)] + ([("expr", use)] if self.mode == "c19" else [])
+            return [("import", stmt % nm)] + ([("expr", use % nm)] if self.mode == "c19" else [])
         if r < 62:
             F.add("comment")
             return [("comment", self.comment_body("#}"))]
